@@ -16,8 +16,13 @@
   * `legacy_sizes_table`: the `block_size()` / `output_bits()` the 16 wrappers report (re-extracted from /repo on every
     run) are the standard values: block 64 / 128 bytes (FIPS 180-4), rate (1600 − 2d)/8 = 144, 136, 104, 72 (FIPS 202),
     and each wrapper stores the context type of the function whose sizes it reports.
-  BLAKE2b / BLAKE2s as `D`: see Props/C09/MacDigest.lean (`blake2_digest_contract`) — `hmac_generic` applies to them
-  through that contract.
+  BLAKE2b / BLAKE2s as `D` (the legacy wrappers of src/blake2b.rs / src/blake2s.rs used through `impl Digest`, fresh
+  object `Blake2b::new(nn)` / `Blake2s::new(nn)`): Props/C08/HmacBlake2.lean.  `blake2b_digest_contract` /
+  `blake2s_digest_contract` (proved in Proofs/MacInstBlake2.lean from the keyed-MAC contract of Proofs/MacBlake2.lean)
+  are the digest-object contract for EVERY output length 1 ≤ nn ≤ 64 resp. 32 (L = nn, bits = 8·nn, B = 128 / 64, no
+  length guard), and `hmac_blake2b`, `hmac_blake2s` instantiate `hmac_generic` with them: RFC 2104 with
+  H = BLAKE2b-nn / BLAKE2s-nn for every key length and every chunking (`HmacCorrectObj`).  (Props/C09/MacDigest.lean
+  has only the contract of the keyed `impl Mac`; there is no theorem `blake2_digest_contract` there.)
 -/
 import CxVerif.Proofs.MacHmac
 import CxVerif.Proofs.MacInst
